@@ -7,6 +7,7 @@ import (
 	"go/ast"
 	"go/token"
 	"go/types"
+	"os"
 	"sort"
 	"strings"
 
@@ -114,6 +115,10 @@ func verifyFunc(prog *Program, fc *FuncContract) (res *FuncResult) {
 		v := Val{T: e.sc.Const("in:"+id.Name, s), GT: obj.Type()}
 		e.typeFactsGlobal(v)
 		e.inputFacts(v)
+		switch obj.Type().Underlying().(type) {
+		case *types.Pointer, *types.Map:
+			e.refIsOld(v.T)
+		}
 		if isSlcSort(s) {
 			v.Orig = map[string]bool{id.Name: true}
 		}
@@ -269,6 +274,9 @@ func verifyFunc(prog *Program, fc *FuncContract) (res *FuncResult) {
 			o.Region = en.Region
 		}
 	}
+	if os.Getenv("GOVC_DEBUG") != "" {
+		fmt.Fprintf(os.Stderr, "DEBUG %s: final ghosts %v modset=%v\n", short, sortedKeys(final.ghosts), fc.ModSet)
+	}
 	if fc.ModSet {
 		allowedMod := map[string]bool{}
 		for _, m := range fc.Modifies {
@@ -301,7 +309,25 @@ func verifyFunc(prog *Program, fc *FuncContract) (res *FuncResult) {
 					continue
 				}
 				alloc0 := e.sc.Const("alloc0", SInt)
-				g := T(SBool, fmt.Sprintf("(forall ((r Int)) (=> (and (<= 0 r) (< r %s)) (= (select %s r) (select %s r))))", alloc0.S, h.S, init.S))
+				// cells named in the modifies list are exempt
+				except := ""
+				for _, m := range fc.Modifies {
+					v, ok := e.tryResolve(old, env, m)
+					if !ok || v.GT == nil {
+						continue
+					}
+					var hn string
+					switch u := v.GT.Underlying().(type) {
+					case *types.Map:
+						hn, _ = e.mapHeap(u)
+					case *types.Pointer:
+						hn, _ = e.ptrHeap(u.Elem())
+					}
+					if hn == k {
+						except += fmt.Sprintf(" (not (= r %s))", v.T.S)
+					}
+				}
+				g := T(SBool, fmt.Sprintf("(forall ((r Int)) (=> (and (<= 0 r) (< r %s)%s) (= (select %s r) (select %s r))))", alloc0.S, except, h.S, init.S))
 				if !strings.HasPrefix(h.Sort, "(Array Int") {
 					g = Eq(h, init)
 				}
